@@ -123,6 +123,7 @@ def run(tier):
                 ck.cov['traces_validated_against_impl'] += 1
     scalar_and_message_legs(ck, rnd, tier)
     framing_leg(ck, tier)
+    stream_leg(ck, tier)
     emitted_leg(ck)
     ck.sample({'value': '-0x180000000', 'rfc_bytes': bytes([0, 0, 0, 5, 0xfe, 0x80, 0, 0, 0]).hex()})
     ck.cov['rule'] = ('TLC enumerates every magnitude up to %d bytes over {00,01,7f,80,ff} with both signs and every name-list up to length 3 over 4 names, checking '
@@ -207,6 +208,83 @@ def framing_leg(ck, tier):
         t2, pl2 = r2.read_packet(2)
         if t2 != 20 or pl2 != payload[1:]:
             ck.violation('framing-read-independent n%%8=%d' % (n % 8), 'reader mis-reads an RFC-framed packet of payload %d' % n, {'payload_len': n})
+
+
+class _Seg:
+    """A socket that hands out a byte stream in exactly the given segments, then reports end of stream."""
+    def __init__(self, segs):
+        self.segs = list(segs)
+
+    def recv(self, n):
+        if not self.segs:
+            return b''
+        seg = self.segs.pop(0)
+        if len(seg) > n:
+            self.segs.insert(0, seg[n:])
+            seg = seg[:n]
+        return seg
+
+    def send(self, d):
+        return len(d)
+
+    def shutdown(self, how):
+        pass
+
+    def close(self):
+        pass
+
+
+def stream_leg(ck, tier):
+    """SshStream.tla: every sequence of packets x every segmentation of the byte stream (up to MaxCuts cuts); TLC checks that the
+    reader model stays aligned and returns exactly the packets sent, and each case is replayed into SSH_Socket.read_packet."""
+    from harness import tlc
+    from ssh_audit.ssh_socket import SSH_Socket
+    from ssh_audit.outputbuffer import OutputBuffer
+    sizes, maxp, maxc = ('{1, 4, 11}', 2, 2) if tier == 'quick' else ('{1, 4, 11, 12}', 3, 2)
+    cfg = ('SPECIFICATION Spec\nCONSTANTS\n Sizes = %s\n MaxPackets = %d\n MaxCuts = %d\nINVARIANT Aligned\nINVARIANT NoOverread\nINVARIANT AllReturned\n'
+           'INVARIANT Prefix\nINVARIANT Emit\nPROPERTY Terminates\n' % (sizes, maxp, maxc))
+    res = tlc.run('SshStream', cfg, workers=None)
+    ck.add_tlc(res)
+    common.require(res.ok, 'SshStream: %s violated on the reader model:\n%s' % (res.violated, '\n'.join(res.trace[-30:])))
+    cases = [p for p in res.prints if isinstance(p, dict) and 'cuts' in p]
+    common.require(len(cases) > 100, 'SshStream emitted only %d cases' % len(cases))
+    ck.log('SshStream: %d (packet sequence, segmentation) cases; Aligned, NoOverread, AllReturned, Terminates hold' % len(cases))
+    for c in cases:
+        ck.evaluated()
+        payloads = [bytes([20 + i]) + bytes((j * 13 + n) & 0xff for j in range(n - 1)) for i, n in enumerate(c['pkts'])]
+        stream = b''.join(wire.frame(pl) for pl in payloads)
+        edges = [0] + list(c['cuts']) + [len(stream)]
+        segs = [stream[a:b] for a, b in zip(edges, edges[1:])]
+        s = SSH_Socket(OutputBuffer(), 'localhost', 22)
+        s._SSH_Socket__sock = _Seg(segs)
+        got = []
+        try:
+            for _ in range(len(payloads) + 1):
+                got.append(s.read_packet(2))
+        except BaseException as e:    # noqa
+            got.append(('raised', repr(e)))
+        want = [(pl[0], pl[1:]) for pl in payloads]
+        ok = got[:len(want)] == want and len(got) == len(want) + 1 and got[-1][0] == -1
+        if not ok:
+            k = next((i for i, (g, w) in enumerate(zip(got, want)) if g != w), len(want))
+            where = 'first' if k == 0 else 'later'
+            cut_kind = 'none'
+            if c['cuts']:
+                # where does the first cut fall within its packet?
+                off, acc = c['cuts'][0], 0
+                for n in c['pkts']:
+                    fl = len(wire.frame(bytes(n)))
+                    if off < acc + fl:
+                        rel = off - acc
+                        cut_kind = 'in-length' if rel < 4 else 'before-payload' if rel < 5 else 'in-payload' if rel < 5 + n else 'in-padding' if rel < fl else 'boundary'
+                        break
+                    acc += fl
+            ck.violation('stream-read packet=%s cut=%s' % (where, cut_kind),
+                         'packets of payload sizes %r delivered in segments cut at %r: read_packet call %d returned %r' % (c['pkts'], c['cuts'], k + 1, got[k] if k < len(got) else None),
+                         {'pkts': c['pkts'], 'cuts': c['cuts'], 'returned': [(g[0], g[1].hex() if isinstance(g[1], bytes) else g[1]) for g in got]})
+        else:
+            ck.cov['traces_validated_against_impl'] += 1
+            ck.nontrivial(('stream', tuple(c['pkts']), tuple(c['cuts'])))
 
 
 def scalar_and_message_legs(ck, rnd, tier):
